@@ -327,6 +327,14 @@ func (P) Gen(r *core.Rand, tier string, emit func([]string)) {
 	if tier == "thorough" {
 		nGate = 120
 	}
+	// ExportAndReset on big, mostly completed logs (ids.go: bigx)
+	bigs := []int{255, 1024, 4096, 4097, 4700, 8193}
+	if tier == "thorough" {
+		bigs = []int{255, 256, 257, 1023, 1024, 1025, 4095, 4096, 4097, 5000, 8191, 8192, 8193, 10000, 16385, 40000}
+	}
+	for _, n := range bigs {
+		emit([]string{"bigx " + strconv.Itoa(n) + " " + strconv.FormatUint(r.U64()%1000000, 10)})
+	}
 	// the ID alphabet (ids.go): histories over IDs that differ only in case, are prefixes, are empty, ...
 	for i := 0; i < 25*nGate; i++ {
 		emit([]string{"ids " + strconv.FormatUint(r.U64()%1000000, 10) + " " + strconv.Itoa(r.Range(4, 30))})
